@@ -2141,25 +2141,52 @@ def compare_model(corpus, line, impl_text, model_text):
     return None
 
 
-def run_model(corpus, model_runner, cases, outputs, feature_args=None):
-    """feeds the same (stripped) lines to the extracted model; -> mismatches [(case, impl, model, build)]"""
+# what the model runner understands beyond `dec` / `merge` on corpus messages (the pb builder flips
+# these when the runner learns more); decq / mergeq are sent to the model as dec / merge
+MODEL_SUPPORTS = dict(wrappers=False, declen=False, lendelim=False)
+MODEL_EDV_ARGS = ["--edv"]        # extra runner arguments for the pb-encode-default-value build
+
+
+def model_line(corpus, line):
+    """the line the model runner gets for an annotated driver line, or None if it cannot take it"""
+    t = strip_ann(line).split()
+    if t[0] == "lendelim":
+        return " ".join(t) if MODEL_SUPPORTS["lendelim"] else None
+    if corpus[int(t[1])].wrapper is not None and not MODEL_SUPPORTS["wrappers"]:
+        return None
+    if t[0] == "declen":
+        return " ".join(t) if MODEL_SUPPORTS["declen"] else None
+    t[0] = {"decq": "dec", "mergeq": "merge"}.get(t[0], t[0])
+    return " ".join(t)
+
+
+def write_model_schema(corpus, path=None):
+    os.makedirs(CACHE, exist_ok=True)
+    path = path or os.path.join(CACHE, "pb_model_schema.txt")
+    with open(path + ".tmp", "w") as f:
+        f.write(model_schema_text(corpus, include_wrappers=MODEL_SUPPORTS["wrappers"]))
+    os.replace(path + ".tmp", path)
+    return path
+
+
+def run_model(corpus, model_runner, cases, outputs):
+    """feeds the same lines to the extracted model (`runner --schema <file> [--edv]`);
+    -> mismatches [(annotated line, impl output, model output + "   <- " + what differs, build)]"""
     if not model_runner or not os.path.exists(model_runner):
         return []
     from . import core
-    os.makedirs(CACHE, exist_ok=True)
-    schema = os.path.join(CACHE, "pb_model_schema.txt")
-    with open(schema + ".tmp", "w") as f:
-        f.write(model_schema_text(corpus, include_wrappers=True))
-    os.replace(schema + ".tmp", schema)
+    schema = write_model_schema(corpus)
     mism = []
     for feat, per in outputs.items():
-        args = ["--schema", schema] + (["--edv"] if feat == "edv" else [])
+        args = ["--schema", schema] + (MODEL_EDV_ARGS if feat == "edv" else [])
         flat, idx = [], []
         for ci in sorted(per):
             for l, o in per[ci]:
-                flat.append(strip_ann(l)); idx.append((ci, l, o))
+                ml = model_line(corpus, l)
+                if ml is not None:
+                    flat.append(ml); idx.append((l, o))
         mouts = core.run_lines(model_runner, flat, args=args)
-        for (ci, l, o), mo in zip(idx, mouts):
+        for (l, o), mo in zip(idx, mouts):
             d = compare_model(corpus, l, o, mo or "")
             if d:
                 mism.append((l, o[:2000], (mo or "")[:2000] + "   <- " + d, feat))
